@@ -998,7 +998,8 @@ impl<'a> World<'a> {
                             );
                         }
                         let was = g.map.remove(key).is_some();
-                        g.dirty = true;
+                        // a delete that removed nothing leaves the state unmodified
+                        g.dirty |= was;
                         self.rec.log_u64(existed as u64);
                         if existed != was {
                             return fail(self.focus, self.step, 
@@ -1065,7 +1066,7 @@ impl<'a> World<'a> {
                         for k in ks.iter() {
                             g.map.remove(k);
                         }
-                        g.dirty = true;
+                        g.dirty |= !ks.is_empty();
                         self.rec.log_u64(any as u64);
                         if any != !ks.is_empty() {
                             return fail(self.focus, self.step, 
